@@ -204,6 +204,9 @@ func init() {
 		if !strings.Contains(outsF, `if target.namedOutputs != nil { for _, outputs := range target.namedOutputs { ret = append(ret, outputs...) } } sort.Strings(ret) return ret }`) {
 			failShape("BuildTarget.Outputs changed: %s", outsF)
 		}
+		// ---- follow-up round 2: Client.digestMessage as a program, and PathHasher.Hash's store into the memo ----
+		digestProg := translateDigestMessage(fset, findFunc(f, "Client", "digestMessage"))
+		memoGuarded, memoCond := translateHashMemoStore()
 		actionFields, commandFields := []string{}, []string{}
 		for _, x := range wantAction {
 			actionFields = append(actionFields, coqString(strings.SplitN(x, "=", 2)[0]))
@@ -220,6 +223,173 @@ func init() {
 			"Inductive wstep := WFill | WSort (field : string) | WLast (init : string) | WDedup (field : string) | WDigest.\n" +
 			"Definition walk_prog : list wstep := [" + strings.Join(steps, "; ") + "].\n" +
 			"Definition has_child_field : string := " + coqString(hcField) + ".\n" +
-			"Definition env_sort_key : string := " + coqString(m[1]) + ".\n"
+			"Definition env_sort_key : string := " + coqString(m[1]) + ".\n" +
+			"(* Client.digestMessage: where the serialised bytes are kept between marshalling and hashing (shared = reachable from the Client or a package variable) *)\n" +
+			"Inductive dgstep := GMarshal (shared : bool) (buf : string) | GHash (shared : bool) (buf : string).\n" +
+			"Definition digest_message_prog : list dgstep := [" + strings.Join(digestProg, "; ") + "].\n" +
+			"(* PathHasher.Hash: is `hasher.memo[path] = result` under a guard, and which *)\n" +
+			"Definition hash_memo_store_guarded : bool := " + map[bool]string{true: "true", false: "false"}[memoGuarded] + ".\n" +
+			"Definition hash_memo_store_cond : string := " + coqString(memoCond) + ".\n"
 	}
+}
+
+// translateDigestMessage turns the body of Client.digestMessage into a list of steps: a serialisation of msg into a
+// buffer, and a hash of a buffer. The buffer is classified: a variable the call defines from a fresh allocation is
+// local to the goroutine; anything reachable from the receiver, or not defined in the function, is shared.
+func translateDigestMessage(fset *token.FileSet, fn *ast.FuncDecl) []string {
+	render := func(n ast.Node) string {
+		var b bytes.Buffer
+		if err := printer.Fprint(&b, fset, n); err != nil {
+			failShape("cannot print node: %v", err)
+		}
+		return strings.Join(strings.Fields(b.String()), " ")
+	}
+	if fn.Recv == nil || len(fn.Recv.List) != 1 || len(fn.Recv.List[0].Names) != 1 {
+		failShape("digestMessage: unexpected receiver")
+	}
+	recv := fn.Recv.List[0].Names[0].Name
+	if fn.Type.Params == nil || len(fn.Type.Params.List) != 1 || len(fn.Type.Params.List[0].Names) != 1 {
+		failShape("digestMessage: expected one parameter")
+	}
+	msg := fn.Type.Params.List[0].Names[0].Name
+	locals := map[string]bool{} // variables defined in the function from a fresh allocation
+	mentions := func(e ast.Expr, pred func(id *ast.Ident) bool) bool {
+		found := false
+		ast.Inspect(e, func(n ast.Node) bool {
+			if id, ok := n.(*ast.Ident); ok && pred(id) {
+				found = true
+			}
+			return true
+		})
+		return found
+	}
+	// is the destination handed to MarshalAppend freshly allocated
+	fresh := func(e ast.Expr) bool {
+		switch x := e.(type) {
+		case *ast.Ident:
+			return x.Name == "nil"
+		case *ast.CallExpr:
+			if id, ok := x.Fun.(*ast.Ident); ok && id.Name == "make" {
+				return !mentions(x, func(id *ast.Ident) bool { return id.Name == recv })
+			}
+		case *ast.CompositeLit:
+			return len(x.Elts) == 0
+		}
+		return false
+	}
+	shared := map[string]bool{}
+	steps := []string{}
+	buf := ""
+	for i, st := range fn.Body.List {
+		switch x := st.(type) {
+		case *ast.AssignStmt:
+			if len(x.Lhs) != 2 || len(x.Rhs) != 1 {
+				failShape("digestMessage: statement %d is not `buf, _ := <marshal>(...)`: %s", i, render(st))
+			}
+			call, ok := x.Rhs[0].(*ast.CallExpr)
+			if !ok {
+				failShape("digestMessage: statement %d does not call a marshaller: %s", i, render(st))
+			}
+			sel, ok := call.Fun.(*ast.SelectorExpr)
+			if !ok {
+				failShape("digestMessage: statement %d does not call a marshaller: %s", i, render(st))
+			}
+			if len(call.Args) == 0 || render(call.Args[len(call.Args)-1]) != msg {
+				failShape("digestMessage: statement %d does not serialise the message parameter: %s", i, render(st))
+			}
+			freshAlloc := false
+			switch {
+			case sel.Sel.Name == "Marshal" && len(call.Args) == 1:
+				freshAlloc = true
+			case sel.Sel.Name == "MarshalAppend" && len(call.Args) == 2:
+				freshAlloc = fresh(call.Args[0])
+			default:
+				failShape("digestMessage: statement %d: unknown marshaller %s", i, render(call.Fun))
+			}
+			name := render(x.Lhs[0])
+			isShared := true
+			if id, ok := x.Lhs[0].(*ast.Ident); ok && freshAlloc && (x.Tok == token.DEFINE || locals[id.Name]) {
+				isShared = false
+				locals[id.Name] = true
+			} else if ok && x.Tok == token.DEFINE && !freshAlloc {
+				// a local slice header over storage that is not fresh: the bytes are shared
+				isShared = true
+			}
+			shared[name] = isShared
+			buf = name
+			steps = append(steps, "GMarshal "+map[bool]string{true: "true", false: "false"}[isShared]+" "+coqString(name))
+		case *ast.ReturnStmt:
+			if len(x.Results) != 1 || i != len(fn.Body.List)-1 {
+				failShape("digestMessage: unexpected return: %s", render(st))
+			}
+			re := regexp.MustCompile(`^digest\.NewFromBlob\((.+)\)\.ToProto\(\)$`)
+			m := re.FindStringSubmatch(render(x.Results[0]))
+			if m == nil {
+				failShape("digestMessage: does not return digest.NewFromBlob(<buffer>).ToProto(): %s", render(st))
+			}
+			if m[1] != buf {
+				failShape("digestMessage: hashes %s but serialised into %s", m[1], buf)
+			}
+			steps = append(steps, "GHash "+map[bool]string{true: "true", false: "false"}[shared[m[1]]]+" "+coqString(m[1]))
+		default:
+			failShape("digestMessage: unrecognised statement %d: %s", i, render(st))
+		}
+	}
+	if len(steps) < 2 {
+		failShape("digestMessage: no marshal + hash found")
+	}
+	return steps
+}
+
+// translateHashMemoStore finds, in PathHasher.Hash (src/fs/hash.go), the one store `hasher.memo[path] = result`
+// that follows `result, err := hasher.hash(...)` and reports whether it stands under an if, and under which condition.
+func translateHashMemoStore() (bool, string) {
+	fset, f := parseFile("src/fs/hash.go")
+	render := func(n ast.Node) string {
+		var b bytes.Buffer
+		if err := printer.Fprint(&b, fset, n); err != nil {
+			failShape("cannot print node: %v", err)
+		}
+		return strings.Join(strings.Fields(b.String()), " ")
+	}
+	fn := findFunc(f, "PathHasher", "Hash")
+	const store = `hasher.memo[path] = result`
+	seenHash, found, guarded, cond := false, 0, false, ""
+	for _, st := range fn.Body.List {
+		s := render(st)
+		if strings.HasPrefix(s, `result, err := hasher.hash(path, `) {
+			seenHash = true
+			continue
+		}
+		if s == store {
+			if !seenHash {
+				failShape("PathHasher.Hash: the memo is written before hasher.hash is called")
+			}
+			found++
+			continue
+		}
+		if ifs, ok := st.(*ast.IfStmt); ok && strings.Contains(s, `hasher.memo[path] =`) {
+			if !seenHash || ifs.Init != nil || ifs.Else != nil || len(ifs.Body.List) != 1 || render(ifs.Body.List[0]) != store {
+				failShape("PathHasher.Hash: the store into the memo is not `if <cond> { hasher.memo[path] = result }`: %s", s)
+			}
+			found++
+			guarded, cond = true, render(ifs.Cond)
+			continue
+		}
+		if strings.Contains(s, `hasher.memo[path] =`) {
+			failShape("PathHasher.Hash: unrecognised store into the memo: %s", s)
+		}
+	}
+	if found != 1 {
+		failShape("PathHasher.Hash: expected exactly one store into the memo after hasher.hash, found %d", found)
+	}
+	if guarded && cond != "err == nil" {
+		failShape("PathHasher.Hash: the memo store is guarded by %q, not by err == nil", cond)
+	}
+	// the other half of the pair: hasher.hash hands back the running sum together with the error
+	hs := render(findFunc(f, "PathHasher", "hash").Body)
+	if !strings.Contains(hs, `hash := h.Sum(nil) if err != nil { return hash, err }`) {
+		failShape("PathHasher.hash: no longer returns the sum so far together with the error (the model's FBad carries that sum)")
+	}
+	return guarded, cond
 }
